@@ -546,6 +546,25 @@ def h_net_sample(w, st, rec):
         w.violate(cls, s, detail)
     if failed_peer:
         w.probes["peer_fault.predict.returned"] += 1
+    if rec.get("seed") is None and not failed_peer and not found:
+        # 4d. two immediately consecutive unseeded samples of one network: the forest draws of the second do not
+        #     repeat those of the first row by row (equal weights on kk candidates: probability kk ** -rows)
+        now = dict(getattr(w, "last_positions", {}) or {})
+        prev = net.get("prev_unseeded")
+        if prev and prev["step"] == w.step - 1:
+            for key, b_ in sorted(now.items()):
+                a_ = prev["pos"].get(key)
+                kk = {c for c, _ in (a_ or [])} | {c for c, _ in b_}
+                if not a_ or len(a_) != len(b_) or len(kk) != 1 or min(kk) < 2 or any(h < 0 for _, h in a_ + b_) \
+                        or len(a_) * math.log2(min(kk)) < 64:
+                    continue
+                w.probes["consecutive_unseeded_samples.draws_compared"] += 1
+                if [h for _, h in a_] == [h for _, h in b_]:
+                    w.violate("non_source_draws_identical", site,
+                              {"what": "the forest draws of two consecutive unseeded samples coincide row by row",
+                               "env": key[0], "var": key[1], "rows": len(a_), "candidates": min(kk)})
+                    break
+        net["prev_unseeded"] = {"step": w.step, "pos": now}
     # 5. seeded reproducibility
     if rec.get("seed") is not None and not failed_peer and not found:
         key = jkey({"spec": net["spec"], "peer": st.peer_cfg, "n": rec.get("n"), "seed": rec["seed"]})
@@ -1029,6 +1048,7 @@ def generate(run_seed, deep=False):
             else:
                 ops.append({"c": c, "op": "gc"})
     shared_upstream(st["shared_upstream"], ops)
+    unseeded_pairs(st["unseeded_pairs"], ops, cfg)
     drop_and_rebuild(st["netdrop"], ops, cfg)
     G.bitgen_variation(st["bitgen"], ops)
     G.generator_seed_variation(st["genseed"], ops, lambda r: r.get("op") == "net.sample" and not r.get("invalid"))
@@ -1080,6 +1100,20 @@ def drop_and_rebuild(f, ops, cfg):
         for _ in range(2):
             ops.append({"c": c, "op": "net.sample", "net": new["id"], "n": f.choice([None, f.randint(1, 30)]), "seed": seed})
         prev = new["id"]
+
+
+def unseeded_pairs(f, ops, cfg):
+    """With equal weights on the k nearest rows, some sessions end with two immediately consecutive unseeded samples
+    that are large enough for oracle 4d (decided by a stream of its own, after generation)."""
+    news = [r for r in ops if r.get("op") == "net.new" and not r.get("invalid") and not r.get("peer_fault")
+            and not r.get("arm")]
+    r, n = f.random(), f.choice([70, 96, 128])
+    pc = cfg.get("peer", {})
+    if not (pc.get("uniform") and int(pc.get("k", 1)) >= 2) or r >= 0.5 or not news or cfg.get("big"):
+        return
+    net = f.choice(news)
+    for _ in range(2):
+        ops.append({"c": net.get("c", 0), "op": "net.sample", "net": net["id"], "n": n, "seed": None})
 
 
 def np_star_faults(f, ops):
@@ -1161,7 +1195,7 @@ REQUIRED_PROBES = ["sources>=2.independence_checkable", "sources>=2.functional_d
                    "data.dtype:<f4"] + \
                   ["invalid:" + k for k in sorted(INVALID_NEW)] + ["invalid:" + k for k in sorted(INVALID_N)]
 
-REQUIRED_PROBES = REQUIRED_PROBES + ["thread.calls_outside_main_thread", "fault.died_in_a_numpy_call(np.*)", "sweep.np_star_positions", "construction_died_in_a_numpy_call", "data.environments_share_upstream_columns", "net.dropped", "seed.given_as_Generator"]
+REQUIRED_PROBES = REQUIRED_PROBES + ["thread.calls_outside_main_thread", "fault.died_in_a_numpy_call(np.*)", "sweep.np_star_positions", "construction_died_in_a_numpy_call", "data.environments_share_upstream_columns", "net.dropped", "seed.given_as_Generator", "consecutive_unseeded_samples.draws_compared"]
 
 
 def simplify(op):
